@@ -419,30 +419,31 @@ def replay(ctx, payload):
     ctx.count_class("replay")
     ctx.count_class("replay2")
     if "history" in p:
-        # a saved concurrent history is evidence on its own: judge it again
+        # (1) the saved concurrent history is evidence on its own: judge it again and say so;
+        # (2) the verdict of the replay is about the CURRENT tree: the threaded driver is re-executed
+        #     with the saved seed (schedules differ from run to run: three attempts) and re-judged
         hp = os.path.join(ctx.workdir, "replay_history.ndjson")
         with open(hp, "w") as f:
             f.write("\n".join(p["history"]) + "\n")
         stuck, _ = tlc_conc(hp)
         ctx.evaluations += len(p["history"])
         ctx.traces_validated += 1
-        if stuck:
-            ev = json.loads(p["history"][stuck - 1])
-            ctx.reject(payload["signature"], "saved concurrent history is rejected again at line %d: %s" % (stuck, p["history"][stuck - 1][:300]), p)
-        return
+        print("NOTE saved concurrent history: %s" % (
+            "still rejected by the specification at line %d: %s" % (stuck, p["history"][stuck - 1][:200]) if stuck
+            else "accepted by the current specification"))
     if p.get("threads"):
-        binary = build(p.get("san", "asan"))
+        san = p.get("san", "asan")
+        binary = build(san)
         a = p["args"]
         for i in range(3):
-            path, rc, info = run_threaded(ctx, binary, p.get("san", "asan"), a[0], a[1], a[2], a[3], "replay%d" % i)
+            path, rc, info = run_threaded(ctx, binary, san, a[0], a[1], a[2], a[3], "replay%d" % i)
             ctx.traces_validated += 1
             ctx.evaluations += 1
-            if rc != 0:
+            if rc == 0 and san == "asan":
+                judge_conc(ctx, path, "re-execution of the threaded run", dict(info, threads=True))
+            if ctx.violations:
                 return
-            if p.get("san", "asan") == "asan":
-                judge_conc(ctx, path, "replay of threaded run", dict(info, threads=True))
-                if ctx.violations:
-                    return
+        print("NOTE the threaded run was re-executed 3 times on %s without a rejection" % vlib.REPO)
         return
     binary = build("asan")
     spath = os.path.join(ctx.workdir, "replay_script.ndjson")
